@@ -76,6 +76,8 @@ def literals_of(cond):
             for c in ast.walk(n):
                 if isinstance(c, ast.Constant):
                     out.append(c.value)
+                elif isinstance(c, ast.Attribute) and isinstance(c.value, ast.Name) and c.value.id in ("E", "IE"):
+                    out.append(eval(ast.unparse(c), NS))
     return out
 
 
@@ -381,8 +383,20 @@ def api_judge(tsrc, col=None):
 # ----------------------------------------------------------------- shards
 
 
+# identity and equality tests against literals that have cross-type-equal twins (True / 1 / 1.0, IntEnum members):
+# identity must not be decided by equality
+LITERAL_TESTS = [f"x {op} {lit}" for op in ("is", "is not", "==", "!=") for lit in ("True", "False", "None", "E.a", "IE.p", "0", "1")] + [
+    "not (x is True)", "not (x is not False)", "x is True or x is None", "x is not True and x is not None",
+    "x in (True,)", "x not in (False,)", "x is not IE.q", "x is E.b"]
+LITERAL_TYPES = ["Literal[0, 1, 2]", "Literal[0, 1]", "Literal[True, 2]", "Literal[1, True]", "IE", "Literal[IE.p, 1]", "int", "bool",
+                 "int | None", "bool | None", "Literal[0, 1] | None", "E | None", "object", "float", "Literal[E.a, E.b]", "IE | int"]
+
+
 @st.composite
 def case_strategy(draw):
+    if draw(st.integers(0, 5)) == 0:
+        return draw(st.sampled_from(LITERAL_TYPES)), draw(st.sampled_from(["ifelse", "ifelse", "assert", "early-return"])), \
+            draw(st.sampled_from(LITERAL_TESTS))
     tsrc = draw(st.one_of(st.sampled_from(gen_prog.PARAM_TYPES), universe.type_strategy(2, star=False)))
     form = draw(st.sampled_from(FORMS))
     if form == "match":
